@@ -24,7 +24,26 @@ ASSUMPTIONS = ['SimFile performs each write() of the library as one unbuffered w
                'the page cache survives']
 
 
+def big_frame_case(rng):
+    """Directed (thorough only): one frame holding more than 64 MiB / 128 MiB of data - quantities a quick case never reaches -
+    written with the default input chunk (None) and with explicit ones: the bytes must not differ."""
+    spec = gen.Spec(rng)
+    spec.new_file(mrl=16384)
+    lfi = spec.logical_file()
+    spec.origin(lfi)
+    width = rng.choice([1024, 2048])
+    rows = (rng.choice([70, 140]) * (1 << 20)) // (width * 8) + rng.randint(1, 50)
+    c0 = spec.channel(lfi, 'DEPTH', {'dtype': '<f8', 'shape': [rows], 'kind': 'ramp', 'start': 0, 'step': 1})
+    c1 = spec.channel(lfi, 'IMG', {'dtype': '<f8', 'shape': [rows, width], 'kind': 'rand', 'seed': rng.randrange(1 << 30)})
+    spec.frame(lfi, 'BIG', [c0, c1])
+    configs = [{'ics': rng.choice([1000, rows // 2 + 1, rows]), 'ocs': ['abs', 1 << 24]}]
+    return {'scenario': {'env': {'tz': 'UTC', 'run_cap_s': 300}, 'history': spec.ops},
+            'params': {'configs': configs, 'torn': [], 'source': 'inline', 'big': True, 'ref_ocs': 1 << 24}}
+
+
 def gen_case(rng, tier, avoid):
+    if tier == 'thorough' and rng.random() < 1 / 1500.0:
+        return big_frame_case(rng)
     n_lf = rng.choice([1, 1, 1, 2, 3])
     spec = gen.simple_file(rng, n_lf=n_lf, max_width=10)
     rows = gen.max_rows(spec)
@@ -117,7 +136,7 @@ def check_case(case, ex):
         # row count of externalised data
         rows = max([rc['shape'][0] for _, rc in (P['data'].get('arrays') or P['data'].get('fields') or P['data'].get('datasets') or [])] or [rows])
 
-    ref = ex(C.scenario_with(case, [wop(output_chunk_size=1 << 20)]))
+    ref = ex(C.scenario_with(case, [wop(output_chunk_size=P.get('ref_ocs', 1 << 20))]))
     stats['execs'] += 1
     stats['seams'].update(ref['seams'])
     rw = C.last_write(ref)
